@@ -271,7 +271,7 @@ impl Property for C03 {
             let s = Fx::from_u64(1000 + k as u64 * 77);
             let limit = Fx::from_u64(10);
             let rc = formulas::rate_commitment(&s.big(), &limit.big());
-            let index = 3 + k * 100_000;
+            let index = (3 + k * 87_000) % (1 << 20);
             r.set_leaf(index, Cursor::new(cr::enc_fr(&rc))).unwrap();
             let e1 = Fx::from_u64(42 + k as u64);
             let e2 = Fx::from_u64(43 + k as u64);
